@@ -162,7 +162,8 @@ def build_prop(pid, want_fuzz=True):
     libdir = build_lib(cfg)
     vsrc = tree_digest([os.path.join(VERIF, "engine"), os.path.join(VERIF, "genlib"), os.path.join(VERIF, "ref")], (".h", ".cpp", ".inc"))
     psrc = os.path.join(VERIF, "props", pid.lower() + ".cpp")
-    key = sha(vsrc, open(psrc, "rb").read(), " ".join(meta.get("cxxflags", [])), " ".join(meta.get("libs", [])))[:16]
+    extra = b"".join(open(os.path.join(VERIF, x), "rb").read() for x in meta.get("extra_sources", []))
+    key = sha(vsrc, open(psrc, "rb").read(), extra, " ".join(meta.get("cxxflags", [])), " ".join(meta.get("libs", [])))[:16]
     d = os.path.join(libdir, "props", "%s-%s" % (pid, key))
     rand = os.path.join(d, pid.lower() + "_rand")
     fuzz = os.path.join(d, pid.lower() + "_fuzz")
